@@ -513,6 +513,7 @@ func (ctx *Context) evaluate() {
 		}
 		sort.Sort(spanByBegin(details))
 		ctx.DetailSpans = details
+		ctx.detailCache = "" // 缓存的文本属于上一次执行(Parse一次后多次RunAfterParsed)
 	}
 
 	var lastPop *VMValue
